@@ -133,6 +133,7 @@ func runC16(args []string) int {
 	rep := newReport("C16", f)
 	rep.Rule = "A: crafted pairs of header slots (valid / bit flip / zero / garbage / tear / multi-byte / equal txid / wrap-around txids) in 2-3 page images, implementation readValidMeta vs. Coq model; " +
 		"B: files produced by random histories, each header page damaged by every single bit flip, every byte-prefix tear, zeroes, garbage, slot copies, both-damaged, reopened through the open path and compared with the state of the intact header and with the model. " +
+		"C: free-list / mapping page chains written by the implementation with one page damaged (entry counts beyond the page, garbage, truncated entries): readFreeList / readWAL vs. the Coq model, never a panic; the same damage on the meta pages of history images through Open. " +
 		"A case is non-trivial when at least one slot is damaged or both are valid with different txids; distinct = distinct (damage kind, slot, position, outcome)."
 	m, err := model.Start()
 	if err != nil {
@@ -153,6 +154,10 @@ func runC16(args []string) int {
 	if f.n > 0 {
 		nA, nB = f.n, f.n/100+1
 	}
+
+	// ---- part C: the pages an intact header refers to (free list, overwrite mapping) are damaged: the readers
+	// answer like the model (error, never a panic)
+	pagesK1(rep, m, r, nA/20, true)
 
 	// ---- part A
 	for i := 0; i < nA; i++ {
@@ -262,6 +267,18 @@ func c16History(rep *Report, m *model.Client, cfg engine.Config, ops []engine.Op
 	for _, op := range ops {
 		e.Apply(op)
 	}
+	// the pages the newest header refers to (free list and overwrite mapping)
+	var metaPageIDs []uint64
+	if e.File != nil && e.Tx == nil && !e.Dead {
+		snap := txfile.VerifSnapshot(e.File)
+		for _, l := range [][]txfile.VerifRegion{snap.FreelistPages, snap.WalMetaPages} {
+			for _, r := range l {
+				for id := r.ID; id < r.ID+uint64(r.Count); id++ {
+					metaPageIDs = append(metaPageIDs, id)
+				}
+			}
+		}
+	}
 	e.Close()
 	rep.Traces++
 	if len(e.Failures) > 0 {
@@ -329,8 +346,39 @@ func c16History(rep *Report, m *model.Client, cfg engine.Config, ops []engine.Op
 		mut  func(b []byte)
 		// which slots are damaged
 		dam [2]bool
+		// the headers are intact, a page they refer to is damaged: Open may fail or succeed, never panic
+		metaPage bool
 	}
 	var cases []dcase
+	for _, id := range metaPageIDs {
+		base := int(id) * ps
+		if base+ps > len(img) {
+			continue
+		}
+		for g := 0; g < 4; g++ {
+			g := g
+			cases = append(cases, dcase{name: fmt.Sprintf("metapage/%d/%d", id, g), metaPage: true, mut: func(b []byte) {
+				switch g {
+				case 0: // entry count beyond the page
+					for i := 8; i < 12; i++ {
+						b[base+i] = 0xff
+					}
+				case 1: // entry count = capacity + a few
+					binary.LittleEndian.PutUint32(b[base+8:], uint32(ps/8))
+				default:
+					gr := rand.New(rand.NewSource(hseed + int64(g) + int64(id)*1000))
+					for i := 0; i < ps; i++ {
+						b[base+i] = byte(gr.Intn(256))
+					}
+					if g == 3 { // keep the chain short: no next page
+						for i := 0; i < 8; i++ {
+							b[base+i] = 0
+						}
+					}
+				}
+			}})
+		}
+	}
 	for s := 0; s < 2; s++ {
 		s := s
 		base := s * ps
@@ -418,6 +466,20 @@ func c16History(rep *Report, m *model.Client, cfg engine.Config, ops []engine.Op
 				continue
 			}
 		}
+		if dc.metaPage {
+			var actual string
+			rep.guard(30*time.Second, Violation{Kind: "oracle", Sig: "open-with-damaged-meta-page/hang",
+				Detail: fmt.Sprintf("%s on %s: Open does not return", dc.name, cfg),
+				Replay: c16Replay{Config: cfg, Ops: ops, HistSeed: hseed, Damage: dc.name, Expect: "no panic", Actual: "hang"}},
+				func() { actual = c16OpenOnly(cfg, dimg) })
+			rep.nontrivial(fmt.Sprintf("B/metapage/%d/%s", len(metaPageIDs), actual))
+			if actual != "error" && actual != "opened" {
+				rep.violate(Violation{Kind: "oracle", Sig: "open-with-damaged-meta-page/panic",
+					Detail: fmt.Sprintf("%s on %s: both headers are intact, a free-list / mapping page is damaged: expected an error (or a successful open), got %s", dc.name, cfg, actual),
+					Replay: c16Replay{Config: cfg, Ops: ops, HistSeed: hseed, Damage: dc.name, Expect: "no panic", Actual: actual}})
+			}
+			continue
+		}
 		// a damaged slot that still validates must be byte-identical to a header that was really written
 		for s := 0; s < 2; s++ {
 			if dc.dam[s] && v[s] && kind != "tear" {
@@ -495,6 +557,25 @@ func c16Open(cfg engine.Config, img []byte, want engine.State, expect string) (r
 		return "wrong-state: " + e.Failures[0]
 	}
 	return "state"
+}
+
+// c16OpenOnly opens an image whose headers are intact: "error", "opened" or "panic: ..".
+func c16OpenOnly(cfg engine.Config, img []byte) (res string) {
+	defer func() {
+		if r := recover(); r != nil {
+			res = fmt.Sprintf("panic: %v", r)
+		}
+	}()
+	d := simdisk.FromImage("dmg", img)
+	e, err := engine.Attach(cfg, d, engine.State{}, cfg.Options())
+	if err != nil {
+		if len(err.Error()) >= 5 && err.Error()[:5] == "PANIC" {
+			return "panic: " + err.Error()
+		}
+		return "error"
+	}
+	e.Close()
+	return "opened"
 }
 
 func replayC16(f campaignFlags, rep *Report, m *model.Client) int {
